@@ -976,14 +976,15 @@ int myltoa(Long x, char* s)
 		s[1] = '\0';
 		return 1;
 	}
+	ULong u = (ULong)x;
 	if (x<0)
 	{
 		s[j++] = '-';
-		x = -x;
+		u = 0 - u; // also right for the most negative value
 	}
-	while (x != 0) {
-		ss[i++] = char(x % 10) + '0';
-		x = x / 10;
+	while (u != 0) {
+		ss[i++] = char(u % 10) + '0';
+		u = u / 10;
 	}
 	while (i > 0)
 		s[j++] = ss[--i];
